@@ -3731,6 +3731,10 @@ func (ce *CaseWhenExp) String() string {
 	if ce.elseExp != nil {
 		sb.WriteString("ELSE " + ce.elseExp.String() + " ")
 	}
+	if ce.exp != nil {
+		return "CASE " + ce.exp.String() + " " + sb.String() + "END"
+	}
+
 	return "CASE " + sb.String() + "END"
 }
 
@@ -7750,6 +7754,10 @@ func (bexp *InListExp) String() string {
 	for i, exp := range bexp.values {
 		values[i] = exp.String()
 	}
+	if bexp.notIn {
+		return fmt.Sprintf("%s NOT IN (%s)", bexp.val.String(), strings.Join(values, ","))
+	}
+
 	return fmt.Sprintf("%s IN (%s)", bexp.val.String(), strings.Join(values, ","))
 }
 
